@@ -19,8 +19,8 @@ DEL = ['delete_vertex', 'delete_edge', 'delete_face', 'delete_cell']
 SWAP = ['swap_vertices', 'swap_edges', 'swap_faces', 'swap_cells']
 BUT = ['enable_vbu', 'enable_ebu', 'enable_fbu']
 ADDS = ['add_vertex', 'add_n_vertices', 'add_edge', 'add_face_v', 'add_cell_closed']
-ALLSEEDS = list(range(12))
-EXTRA = [9, 10, 11]            # prism, edge-sharing tets, loop edge / valence-1 face / 2-gon
+ALLSEEDS = list(range(14))
+EXTRA = [9, 10, 11, 12]        # prism, edge-sharing tets, loop edge / valence-1 face / 2-gon, pyramid on pre-existing mixed-direction edges
 MAINSEEDS = [1, 2, 3, 4, 5, 6, 7, 8]
 
 # per property: which oracles the validator evaluates, executor options,
@@ -118,6 +118,7 @@ CHECKS = {
         quick=[mc(1, [1, 6], [], ['add_edge', 'add_face'], Modes='ModesDefault', BUSets='BUTwo', MaxList=3),
                mc(1, [1, 5], [], ['add_cell'], Modes='ModesDefault', BUSets='BUTwo', MaxList=4),
                mc(1, [3, 9, 10], [], ['add_cell'], Modes='ModesDefault', BUSets='BUOn', MaxList=3),
+               mc(1, [13], [], ['add_cell'], Modes='ModesDefault', BUSets='BUOn', MaxList=4),
                mc(2, [2, 6], DEL, ['add_edge', 'add_cell_closed', 'add_face_v'], Modes='ModesTwo', BUSets='BUTwo', MaxList=3)],
         thorough=[mc(2, [1, 6], DEL, ['add_edge', 'add_face'], Modes='ModesTwo', BUSets='BUTwo', MaxList=3),
                   mc(2, [1, 5, 2], ['delete_cell'], ['add_cell'], Modes='ModesDefault', BUSets='BUTwo', MaxList=4),
